@@ -2,6 +2,7 @@ import Oas3Model.Model.Path
 import Oas3Model.Sem.Url
 import Oas3Model.Model.Client
 import Oas3Model.Proofs.Path
+import Oas3Model.Proofs.ClientWire
 /-
 Property C03 — URL path construction.
 
@@ -312,5 +313,101 @@ example : pctDecode "%C3%A9%20%2F".toList = [0xC3, 0xA9, 0x20, 0x2F] := by decid
 example : collectParams [⟨"id".toList, .path, true⟩, ⟨"q".toList, .query, true⟩,
       ⟨"id".toList, .path, false⟩]
     = [⟨"q".toList, .query, true⟩, ⟨"id".toList, .path, false⟩] := by decide +kernel
+
+/-! ### 12 query and header parameters: names on the wire, array layout, conditional insertion
+
+`queryMember` / `headerInsert` (Model/ClientWire.lean) are what today's generator emits per parameter (tied to
+the emitted code by the driver's `match`); `queryOk` / `headerOk` are the property's clauses, evaluated by the
+driver on the facts EXTRACTED from the emitted code; `memberPairs` / `headerValue` are the serializers
+(`serde_urlencoded`, `HeaderValue::try_from`). -/
+
+/-- `style: simple`: the header value of an array is its items joined with `,`; splitting the value at `,`
+returns exactly the items (empty items at ANY position included) when no item contains a comma.
+`items = []` is excluded: an empty array and `[""]` both give the empty value (`join_empty_ambiguous`). -/
+theorem joinHeader_split (items : List (List Char)) (hne : items ≠ []) (h : ∀ i ∈ items, ',' ∉ i) :
+    splitOn ',' (joinHeader items) = items :=
+  splitOn_joinWith ',' items hne h
+
+/-- the same for the three query delimiters -/
+theorem joinWith_split (s : Sep) (items : List (List Char)) (hne : items ≠ []) (h : ∀ i ∈ items, s.char ∉ i) :
+    splitOn s.char (joinWith s.char items) = items :=
+  splitOn_joinWith s.char items hne h
+
+theorem join_leading_empty : joinHeader ["".toList, "write".toList] = ",write".toList ∧
+    splitOn ',' (joinHeader ["".toList, "write".toList]) = ["".toList, "write".toList] ∧
+    joinHeader ["".toList, "".toList] = ",".toList ∧
+    joinHeader ["a".toList, "".toList, "".toList] = "a,,".toList := by decide
+
+theorem join_empty_ambiguous : joinHeader [] = joinHeader ["".toList] := by decide
+
+/-- a join that skips the separator while its accumulator is empty loses leading empty items: the value no
+longer splits into the supplied items -/
+theorem cex_join_skipping :
+    joinSkipping ["".toList, "write".toList] = "write".toList ∧
+    splitOn ',' (joinSkipping ["".toList, "write".toList]) ≠ ["".toList, "write".toList] ∧
+    joinSkipping ["".toList, "".toList, "c".toList] = "c".toList ∧
+    joinSkipping ["a".toList, "".toList, "c".toList] = joinHeader ["a".toList, "".toList, "c".toList] := by decide
+
+/-- the parameter merge of the wire model is `collect_parameters` -/
+theorem collectW_is_collectParams (ps : List WParam) :
+    (collectW ps).map WParam.toParam = collectParams (ps.map WParam.toParam) := collectW_toParam ps
+
+/-- query clause: a member accepted by the judge serializes every value the parameter's schema allows to
+exactly the pairs OpenAPI prescribes (original name, one pair, declared delimiter), and never fails -/
+theorem C03_query_clause_sound (p : WParam) (m : QMember) (h : queryOk p m = true) (v : PVal)
+    (hv : v.fits p = true) : memberPairs m v = some (wantPairs p v) := queryOk_sound p m h v hv
+
+/-- header clause: an insertion accepted by the judge yields exactly the `style: simple` value, and no header
+for an absent parameter -/
+theorem C03_header_clause_sound (p : WParam) (hi : HInsert) (s : Bool) (h : headerOk p hi s = true) (v : PVal)
+    (hv : v.fits p = true) : headerValue hi v = wantHeader v := headerOk_sound p hi s h v hv
+
+/-- today's query layout satisfies the clause exactly for parameters that are not exploded arrays -/
+theorem C03_query_layout_char (p : WParam) :
+    queryOk p (queryMember p) = !(p.isArray && explodeOf p) := by
+  cases hA : p.isArray <;> cases hE : explodeOf p <;> simp [queryOk, queryMember, hA, hE]
+
+theorem C03_query_layout_partial (p : WParam) (h : (p.isArray && explodeOf p) = false) :
+    queryOk p (queryMember p) = true := by rw [C03_query_layout_char, h]; rfl
+
+/-- today's header insertion satisfies the clause exactly for parameters that are not required-with-default -/
+theorem C03_header_layout_char (p : WParam) :
+    headerOk p (headerInsert p) (!p.isArray && p.item == .string) = !(p.required && p.hasDefault) := by
+  cases hA : p.isArray <;> cases hR : p.required <;> cases hD : p.hasDefault <;>
+    cases hI : p.item <;> simp [headerOk, headerInsert, hA, hR, hD, hI]
+
+theorem C03_header_layout_partial (p : WParam) (h : (p.required && p.hasDefault) = false) :
+    headerOk p (headerInsert p) (!p.isArray && p.item == .string) = true := by
+  rw [C03_header_layout_char, h]; rfl
+
+/-- KnownExplodedQueryArray: `ids: array` (style form, explode by default) is a plain `Vec`; every call that
+supplies it fails in `serde_urlencoded` -/
+theorem cex_exploded_array :
+    memberPairs (queryMember { name := "ids".toList, loc := .query, isArray := true }) (.list ["1".toList]) = none ∧
+    wantPairs { name := "ids".toList, loc := .query, isArray := true } (.list ["1".toList, "2".toList])
+      = [("ids".toList, "1".toList), ("ids".toList, "2".toList)] := by decide +kernel
+
+/-- KnownRequiredDefaultHeader: required + default gives a conditional insertion on a non-Option member -/
+theorem cex_required_default_header :
+    (headerInsert { name := "X-N".toList, loc := .header, item := .integer, required := true, hasDefault := true }).conditional = true ∧
+    (headerInsert { name := "X-N".toList, loc := .header, item := .integer, required := true, hasDefault := true }).optional = false := by
+  decide +kernel
+
+/-- a delimited array member that lost its rename goes out under the Rust field name -/
+theorem cex_rename_lost :
+    memberPairs { (queryMember { name := "tagIds".toList, loc := .query, isArray := true, explode := some false }) with key := "tag_ids".toList }
+        (.list ["t1".toList, "t2".toList]) = some [("tag_ids".toList, "t1,t2".toList)] ∧
+    wantPairs { name := "tagIds".toList, loc := .query, isArray := true, explode := some false } (.list ["t1".toList, "t2".toList])
+        = [("tagIds".toList, "t1,t2".toList)] ∧
+    queryOk { name := "tagIds".toList, loc := .query, isArray := true, explode := some false }
+        { (queryMember { name := "tagIds".toList, loc := .query, isArray := true, explode := some false }) with key := "tag_ids".toList } = false := by
+  decide +kernel
+
+example : queryMember { name := "filter-labels".toList, loc := .query, isArray := true, style := some .pipeDelimited }
+    = { field := "filter_labels".toList, key := "filter-labels".toList, isArray := true, optional := true, adapter := some .pipe } := by
+  decide +kernel
+example : adapterText .pipe true = "Option<oas3_gen_support::StringWithPipeSeparator>".toList := by decide +kernel
+example : (headerInsert { name := "X-Trace".toList, loc := .header, required := true }).wire = "x-trace".toList ∧
+    (headerInsert { name := "X-Trace".toList, loc := .header, required := true }).const = "X_TRACE".toList := by decide +kernel
 
 end Oas3.Props.C03
